@@ -6,7 +6,7 @@ slot=$1; shift
 base=/var/tmp/seedreg-$slot
 mkdir -p $base/cache $base/out
 for id in "$@"; do
-  p=${id%-*}
+  p=${PROP:-${id%-*}}
   rm -rf $base/repo; mkdir -p $base/repo
   git -C /repo archive HEAD | tar -x -C $base/repo
   if ! (cd $base/repo && patch -p1 -s --no-backup-if-mismatch < /verif/seeded/$id/patch.diff >/dev/null 2>&1); then echo "$id exit=3 patch does not apply"; continue; fi
